@@ -212,6 +212,7 @@ type rmsg struct {
 // sut is the mangos socket under test with its listener (control peers, and in role listen
 // the hostile peer, connect to it) and in role dial the hostile peer's raw listener.
 type sut struct {
+	noTLSHostile bool // the hostile peer connects at TCP level only and never starts the TLS handshake
 	tran  string
 	role  string
 	sock  mangos.Socket
@@ -445,7 +446,7 @@ func (s *sut) hostileConn() (*hostile, error) {
 		d := net.Dialer{Timeout: watchdog}
 		var c net.Conn
 		var err error
-		if tlsWrapped(s.tran) {
+		if tlsWrapped(s.tran) && !s.noTLSHostile {
 			c, err = tls.DialWithDialer(&d, s.rawNet, s.rawAddr, ccfg)
 		} else {
 			c, err = d.Dial(s.rawNet, s.rawAddr)
